@@ -8,6 +8,10 @@
     does with the raw string is not modelled; whether [Value.Set] rejects a raw
     string ([bad]) is data computed by the real typed values in the harness.
 
+    The environment loop is the one after fix 3899f15 (entries without '=' are
+    skipped); the loop before the fix is kept as [env_map_unrepaired] /
+    [parse_flags_unrepaired] for the refutation theorems only.
+
     Environment names are upper-cased with [strings.ToUpper]; the model's [upper]
     is exact on ASCII names (the harness excludes non-ASCII names from the
     comparison; real flag names are ASCII).
@@ -42,18 +46,30 @@ Fixpoint cut_eq (e : str) : str * option str :=
               else let '(a, b) := cut_eq r in (c :: a, b)
   end.
 
-(* flagset.go:105-110
+(* flagset.go:105-114 (after fix 3899f15)
      env := map[string]string{}
      for _, e := range environ {
          p := strings.SplitN(e, "=", 2)
-         env[strings.ToUpper(p[0])] = p[1]     <- p[1] panics when e has no '='
+         if len(p) != 2 { continue }           <- entries without '=' are skipped
+         env[strings.ToUpper(p[0])] = p[1]
      } *)
-Fixpoint env_map (environ : list str) (m : smap) : outcome smap :=
+Fixpoint env_map (environ : list str) (m : smap) : smap :=
+  match environ with
+  | [] => m
+  | e :: r => match cut_eq e with
+              | (_, None) => env_map r m
+              | (n, Some v) => env_map r (map_set m (upper n) v)
+              end
+  end.
+
+(* the loop as it was before 3899f15 (repaired in /repo; kept for the refutation
+   theorems only):   env[strings.ToUpper(p[0])] = p[1]   panics when e has no '=' *)
+Fixpoint env_map_unrepaired (environ : list str) (m : smap) : outcome smap :=
   match environ with
   | [] => Ok m
   | e :: r => match cut_eq e with
               | (_, None) => Panic
-              | (n, Some v) => env_map r (map_set m (upper n) v)
+              | (n, Some v) => env_map_unrepaired r (map_set m (upper n) v)
               end
   end.
 
@@ -168,7 +184,15 @@ Section ParseFlags.
     : outcome (list flag_result) :=
     do calls <- parse_args args [];
     let prefixes := match prefixes with [] => [[]] | _ => prefixes end in
-    do env <- env_map environ [];
+    let env := env_map environ [] in
+    Ok (map (visit calls prefixes env props) flags).
+
+  (* ParseFlags before fix 3899f15 (refutation theorems only) *)
+  Definition parse_flags_unrepaired (args environ prefixes : list str) (props : option smap)
+    : outcome (list flag_result) :=
+    do calls <- parse_args args [];
+    let prefixes := match prefixes with [] => [[]] | _ => prefixes end in
+    do env <- env_map_unrepaired environ [];
     Ok (map (visit calls prefixes env props) flags).
 End ParseFlags.
 
@@ -193,10 +217,11 @@ Definition cmd_value (calls : list (str * str)) (name : str) : option str :=
   | None => None
   end.
 
-(* the value the environment gives a variable, in any letter case: the last entry whose
-   name equals [key] up to case ([key] is upper case) *)
+(* the value the environment gives a variable, in any letter case: the last entry of
+   the form NAME=VALUE whose name equals [key] up to case ([key] is upper case) *)
 Definition env_value (environ : list str) (key : str) : option str :=
-  match find (fun e => beq (upper (fst (cut_eq e))) key) (rev environ) with
+  match find (fun e => match snd (cut_eq e) with Some _ => true | None => false end
+                       && beq (upper (fst (cut_eq e))) key) (rev environ) with
   | Some e => snd (cut_eq e)
   | None => None
   end.
@@ -232,6 +257,6 @@ Definition spec_choice_gen (calls : list (str * str)) (environ prefixes : list s
               :: map (fun p => env_value environ (env_name p name)) prefixes
               ++ [props_value props name]).
 
-(* every environment entry has the form NAME=VALUE *)
+(* every environment entry has the form NAME=VALUE (the domain of the unrepaired loop) *)
 Definition env_well_formed (environ : list str) : bool :=
   forallb (fun e => match snd (cut_eq e) with Some _ => true | None => false end) environ.
